@@ -115,6 +115,24 @@ func (e *arityEngine) callCount(call *ast.CallExpr) (counts, bool) {
 		if trCanon(a) == "tr" {
 			takesTr = true
 		}
+		if t := e.p.Bebop().TypesInfo.TypeOf(a); t != nil && strings.HasSuffix(t.String(), ".tokenReader") {
+			takesTr = true
+		}
+	}
+	// a method of a value that holds the token reader (p.readEnum() with p.tr)
+	if sel, ok := ast.Unparen(call.Fun).(*ast.SelectorExpr); ok && !takesTr {
+		if t := e.p.Bebop().TypesInfo.TypeOf(sel.X); t != nil {
+			if pt, isP := t.(*types.Pointer); isP {
+				t = pt.Elem()
+			}
+			if st, isSt := t.Underlying().(*types.Struct); isSt {
+				for i := 0; i < st.NumFields(); i++ {
+					if strings.HasSuffix(st.Field(i).Type().String(), ".tokenReader") {
+						takesTr = true
+					}
+				}
+			}
+		}
 	}
 	if !takesTr {
 		return counts{}, false
@@ -813,7 +831,7 @@ func checkC16(c *core.Ctx) {
 		}
 		ast.Inspect(fd.Body, func(n ast.Node) bool {
 			if call, ok := n.(*ast.CallExpr); ok {
-				if sel, ok := call.Fun.(*ast.SelectorExpr); ok && (sel.Sel.Name == "Next" || sel.Sel.Name == "UnNext" || sel.Sel.Name == "Token") {
+				if sel, ok := call.Fun.(*ast.SelectorExpr); ok && (apiRole(sel.Sel.Name) == "Next" || apiRole(sel.Sel.Name) == "UnNext" || apiRole(sel.Sel.Name) == "Token") {
 					if t := info.TypeOf(sel.X); t != nil && strings.HasSuffix(t.String(), ".tokenReader") {
 						wrapped = fd.Name.Name
 					}
@@ -1010,7 +1028,7 @@ func checkC16(c *core.Ctx) {
 	// a bool raised in the readonly arm is an argument of the formatStruct call
 	passed := map[types.Object]bool{}
 	ast.Inspect(ff.Body, func(n ast.Node) bool {
-		if call, ok := n.(*ast.CallExpr); ok && wire.Canon(call.Fun) == "formatStruct" {
+		if call, ok := n.(*ast.CallExpr); ok && calleeNamed(call, "formatStruct") {
 			for _, a := range call.Args {
 				if id, ok := ast.Unparen(a).(*ast.Ident); ok {
 					if o := info.ObjectOf(id); o != nil {
@@ -1964,7 +1982,7 @@ func readonlyDerived(info *types.Info, ff *ast.FuncDecl, passed map[types.Object
 	if passed == nil {
 		passed = map[types.Object]bool{}
 		ast.Inspect(ff.Body, func(n ast.Node) bool {
-			if call, ok := n.(*ast.CallExpr); ok && wire.Canon(call.Fun) == "formatStruct" {
+			if call, ok := n.(*ast.CallExpr); ok && calleeNamed(call, "formatStruct") {
 				for _, a := range call.Args {
 					if id, ok := ast.Unparen(a).(*ast.Ident); ok {
 						if o := info.ObjectOf(id); o != nil {
